@@ -258,7 +258,25 @@ func c49Check(tb ev.TB, rec *ev.Rec, c *c49Case, e2e *c49Rig) {
 		}
 		var msg *ref.Message
 		if e2e != nil {
+			// every second case without a host action goes to the FastCGI cluster: there the
+			// request URI the application sees (REQUEST_URI) is the observation
+			hostAction := false
+			for _, r := range c.Rules {
+				for _, a := range r.Actions {
+					if strings.HasPrefix(a.Cmd, "HOST_") {
+						hostAction = true
+					}
+				}
+			}
+			if !hostAction {
+				e2e.nRw++
+			}
+			e2e.useFcgi = !hostAction && e2e.nRw%3 != 1 // two of three eligible cases
+			if e2e.useFcgi {
+				classes = append(classes, "stage:end-to-end-fcgi")
+			}
 			x, rigTrouble := e2e.exchangeRobust(c)
+			e2e.useFcgi = false
 			if rigTrouble {
 				classes = append(classes, "e2e-inconclusive-rig-5xx")
 				rec.Excluded("e2e-inconclusive-rig-5xx")
@@ -995,11 +1013,11 @@ func c49GenRedirectAction(rt *rapid.T) c49Action {
 	switch cmd {
 	case "URL_SET":
 		return c49Action{cmd, []string{rapid.SampledFrom([]string{"https://example.org", "http://www.example.com/new?x=1&y=2",
-			"https://a.example.org/p/q#frag", "/login", "/a/b/"}).Draw(rt, "u")}}
+			"https://a.example.org/p/q#frag", "/login", "/a/b/", "/v2/dir/?a=1", "/v2/dir?next=/a/", "/v2/?x=1&y=/"}).Draw(rt, "u")}}
 	case "URL_FROM_QUERY":
 		return c49Action{cmd, []string{rapid.SampledFrom([]string{"url", "u", "a b"}).Draw(rt, "k")}}
 	case "URL_PREFIX_ADD":
-		return c49Action{cmd, []string{rapid.SampledFrom([]string{"https://example.org", "http://m.example.org/mobile", "https://example.org:8443/x"}).Draw(rt, "p")}}
+		return c49Action{cmd, []string{rapid.SampledFrom([]string{"https://example.org", "http://m.example.org/mobile", "https://example.org:8443/x", "/m", "/mobile/x"}).Draw(rt, "p")}}
 	}
 	return c49Action{cmd, []string{rapid.SampledFrom([]string{"http", "https"}).Draw(rt, "s")}}
 }
@@ -1050,7 +1068,7 @@ func c49GenCase(rt *rapid.T) *c49Case {
 		k := rapid.SampledFrom(want).Draw(rt, "urlkey")
 		rk := c49EncKey(rt, k)
 		v := rapid.SampledFrom([]string{"http%3A%2F%2Fx.org%2Fp%3Fz%3D1%26w%3D2", "https://n.example.org/x", "https%3a%2f%2fn.example.org%2Fa+b",
-			"http://x.org/p;v=1", "https://x.org/?a=b"}).Draw(rt, "urlv")
+			"http://x.org/p;v=1", "https://x.org/?a=b", "%2Fv2%2Fdir%2F%3Fa%3D1", "/v2/dir?next=/a/", "/v2/"}).Draw(rt, "urlv")
 		el := rk + "=" + v
 		switch {
 		case q == "":
@@ -1106,6 +1124,14 @@ func c49Sweep(t *testing.T, rec *ev.Rec, rig *c49Rig) {
 	} {
 		one("redirect", a, "/redirect?url=https%3A%2F%2Fn.example.org%2Fx%3Fy%3D1&b=2", nil, nil)
 		one("redirect", a, "/docs/hello%20world.html/search%3Fq=1/100%25/%E4%B8%AD?url=https%3A%2F%2Fn.example.org%2F&b=2", nil, nil)
+	}
+	// host-relative redirect targets with a query and trailing slashes (path or query)
+	for _, a := range []c49Action{
+		{"URL_SET", []string{"/v2/dir/?a=1"}}, {"URL_SET", []string{"/v2/dir?next=/a/"}}, {"URL_SET", []string{"/v2/"}},
+		{"URL_FROM_QUERY", []string{"url"}}, {"URL_PREFIX_ADD", []string{"/m"}},
+	} {
+		one("redirect", a, "/old/dir/?url=%2Fv2%2Fdir%2F%3Fa%3D1&b=2", nil, nil)
+		one("redirect", a, "/old/dir?b=2&url=/v2/dir?next=/a/", nil, nil)
 	}
 }
 
